@@ -7,10 +7,9 @@
 (* tree after every stage) carry the behaviour so that it can be replayed   *)
 (* into the real library.                                                   *)
 (***************************************************************************)
-EXTENDS AyMerge, Json
+EXTENDS AyMerge, Uni
 
-CONSTANTS Docs,        \* the universe of surface documents a source may hold (a sequence)
-          SafeFlags,   \* the set of `safe=` values a source may be added with
+CONSTANTS SafeFlags,   \* the set of `safe=` values a source may be added with
           MinStages, MaxStages
 
 VARIABLES stages,      \* builder.stages: parsed documents not yet merged
@@ -56,7 +55,9 @@ Finish ==
     /\ phase' = "done"
     /\ UNCHANGED <<stages, acc, k, hist, accs>>
 
-Next == \/ \E i \in 1..Len(Docs), s \in SafeFlags : AddSource(i, Docs[i], s)
+StageDocs(n) == LET r == DocRange[IF n <= Len(DocRange) THEN n ELSE Len(DocRange)] IN r[1]..r[2]
+
+Next == \/ \E i \in StageDocs(Len(stages) + 1), s \in SafeFlags : AddSource(i, Docs[i], s)
         \/ FlattenFirst \/ MergeStage \/ Finish
 
 Spec == Init /\ [][Next]_vars
